@@ -315,7 +315,7 @@ Definition spec_edges (c : case) : string :=
 
 (* kinds the property speaks about; 'tfact' (TrajectoryParser performs NO type check on facts: not a place that checks
    types, so the property's sentence does not speak about it) is compared with the model only.  Trajectory FLUENTS are
-   checked by the library, so they are judged, repeated arguments included (finding D31). *)
+   checked by the library, so they are judged, repeated arguments included (finding D31, repaired). *)
 Definition judged_kind (k : string) : bool := negb (String.eqb k "tfact").
 
 (* repeated arguments: accepted iff EVERY position's type is a subtype of the type required at that position
@@ -373,21 +373,9 @@ Definition agree (c : case) : bool :=
 
 (* D30 (quantifiers never ranged over the domain's constants) is repaired in /repo: the constant-quantification kinds
    cforall_pre / cforall_eff are ordinary cases now, judged like every other site.
-   D31 (open): TrajectoryParser.parse_grounded_numeric_fluent checks a fluent with a REPEATED argument through a dict keyed by the
-   object name.  Class: a site case that observes ONLY trajectory fluents with a repeated argument (kinds rep*_tfluent, generated in
-   cases of their own) and whose table / names / edges part satisfies the spec. *)
-Definition is_traj_repeat_kind (k : string) : bool :=
-  is_rep_kind k && String.eqb (rep_what k) "tfluent".
-Definition without_sites (c : case) : case :=
-  {| c_groups := c_groups c; c_trailing := c_trailing c; c_names := c_names c; c_types := c_types c; c_table := c_table c;
-     c_edges := c_edges c; c_sites := None; c_quant := None; c_raw := c_raw c |}.
-Definition known_class (c : case) : bool :=
-  match c_sites c, c_quant c with
-  | Some s, None =>
-      negb (match s_obs s with [] => true | _ => false end) &&
-      forallb (fun ko => is_traj_repeat_kind (fst ko)) (s_obs s) && spec_ok (without_sites c)
-  | _, _ => false
-  end.
+   D31 (TrajectoryParser checked a fluent with a REPEATED argument through a dict keyed by the object name) is repaired too
+   (3c74fae): the kinds rep*_tfluent are ordinary cases, judged positionally.  No recorded finding class is left. *)
+Definition known_class (c : case) : bool := false.
 
 (* compact literal of a case without sites: the names the tables range over are the section's type names *)
 Definition tc (gs : list group) (tr : list string) (types : obs string) (table edges : string) : case :=
